@@ -2,7 +2,7 @@
     Model: FV.Sched.  Only statements here; proofs in FVP.Sched_proofs. *)
 From Coq Require Import List ZArith Bool.
 From FV Require Import Base Sched.
-From FVP Require Import Adapters_proofs Sched_proofs.
+From FVP Require Import Adapters_proofs Sched_proofs Confluence_proofs Termination_proofs.
 Import ListNotations.
 Open Scope Z_scope.
 
@@ -66,6 +66,34 @@ Theorem C04_cycle_detected :
     run_loop fuel cs endt st acc = (o, st', acc') -> o <> OOk.
 Proof. intros cs cyc T endt fuel st acc o st' acc' W I C HT Hlt. eapply run_loop_und_cycle; eauto. Qed.
 
+(** With termination (C03): a composition with sufficient delays on every cycle completes, given enough fuel ... *)
+Theorem C04_resolved_cycles_complete :
+  forall cs phi rank rank' endt, term_ok cs rank' -> sufficient cs phi rank ->
+    exists F, forall fuel o st acc, (F <= fuel)%nat -> run fuel cs endt = (o, st, acc) ->
+      o = OOk /\ forall c, is_time cs c = true -> endt <= s_time st c.
+Proof.
+  intros cs phi rank rank' endt T S. destruct (run_terminates cs rank' endt T) as [F HF]. exists F.
+  intros fuel o st acc Hf H. pose proof (HF fuel o st acc Hf H) as NF.
+  destruct (run_good cs endt fuel o st acc (to_wf cs rank' T) H) as [G1 G2].
+  assert (NC : o <> OCirc).
+  { unfold run in H. eapply run_loop_no_circ; eauto; [exact (to_wf cs rank' T)|apply init_state_Inv]. }
+  destruct o; try congruence. split; [reflexivity|]. intros c Tc. eapply run_loop_reaches_end; eauto.
+Qed.
+
+(** ... and an undelayed cycle among components with a common start time before the end time is reported. *)
+Theorem C04_cycle_reported :
+  forall cs rank cyc T endt, term_ok cs rank -> und_cycle cs cyc ->
+    (forall x, In x cyc -> s_time (init_state cs) x = T) -> T < endt ->
+    exists F, forall fuel o st acc, (F <= fuel)%nat -> run fuel cs endt = (o, st, acc) -> o = OCirc.
+Proof.
+  intros cs rank cyc T endt TO C HT Hlt. destruct (run_terminates cs rank endt TO) as [F HF]. exists F.
+  intros fuel o st acc Hf H. pose proof (HF fuel o st acc Hf H) as NF.
+  destruct (run_good cs endt fuel o st acc (to_wf cs rank TO) H) as [G1 G2].
+  assert (NO : o <> OOk).
+  { unfold run in H. eapply (run_loop_und_cycle cs (to_wf cs rank TO) cyc T); eauto. apply init_state_Inv. }
+  destruct o; congruence.
+Qed.
+
 (** Non-vacuity.  Ring of three with steps 10 / 1 / 3 (sum 14): delays 6+5 on one link, 3 on another, 0 on
     the third — no single link covers its consumer's step, the potential is not constant. *)
 Definition ex_ring3 : composition :=
@@ -110,3 +138,5 @@ Print Assumptions C04_delay_sufficient.
 Print Assumptions C04_delay_sufficient_step.
 Print Assumptions C04_delay_per_link.
 Print Assumptions C04_cycle_detected.
+Print Assumptions C04_resolved_cycles_complete.
+Print Assumptions C04_cycle_reported.
